@@ -148,6 +148,10 @@ let ghist f l ops =
       | 'b' -> if Z.leq (Z.of_string a) (zarith_of_z !c) then Some (Z.sub (zarith_of_z !c) (Z.of_string a)) else None
       | 's' | 'S' -> if Z.lt (Z.of_string a) (zarith_of_z !c) then Some (Z.of_string a) else None
       | 'c' | 'C' -> Some Z.zero
+      | 'F' -> let k = int_of_string a in
+               if k > 0 then begin let kept = ref 0 in
+                 for i = 0 to Z.to_int (zarith_of_z !c) - 1 do if (try Hashtbl.find cells i with Not_found -> 0) mod k <> 0 then incr kept done;
+                 Some (Z.of_int !kept) end else None
       | 'D' -> let (_, _, m) = split_op tok in
                if Z.leq (Z.of_string a) (zarith_of_z !c) && Z.leq (Z.of_string m) (Z.sub (zarith_of_z !c) (Z.of_string a))
                then Some (Z.sub (zarith_of_z !c) (Z.of_string m)) else None
@@ -178,6 +182,21 @@ let ghist f l ops =
            let it = Z.to_int (zarith_of_z cap) + ci () + m + 5 in Hashtbl.replace cells it !nextv; incr nextv;
            (match Gen_ShiftSqrt.coq_ShiftInsert cellf !c cap (z_of_int p) (z_of_int m) (z_of_int it) with
             | GenPrelude.Ok ((_, items'), c') -> flush_cells items' (Z.to_int (zarith_of_z c')); c := c' | o -> fail o) end end
+     | 'J' -> (* Insert(p, begin, end), forward iterators = Reserve(count + m) + the regenerated RANGE InsertNogrow; the source range is a block of cells *)
+       let (_, _, ms) = split_op tok in let p = int_of_string a and m = int_of_string ms in
+       if p <= ci () then begin
+         (match Gen_ArrSqrt.coq_Reserve seg idx alloc !segs !n !c (z_of_int (ci () + m)) with GenPrelude.Ok ((_, s'), n') -> segs := s'; n := n' | o -> fail o);
+         if !bad = "" then begin
+           let cap = Gen_ArrSqrt.coq_GetCapacity idx !segs !n !c in
+           let base = Z.to_int (zarith_of_z cap) + ci () + m + 5 in
+           for k = 0 to m - 1 do Hashtbl.replace cells (base + k) !nextv; incr nextv done;
+           (match Gen_ShiftXSqrt.coq_ShiftInsertRange cellf !c cap (z_of_int p) (z_of_int base) (z_of_int m) with
+            | GenPrelude.Ok ((_, items'), c') -> flush_cells items' (Z.to_int (zarith_of_z c')); c := c' | o -> fail o) end end
+     | 'F' -> (* Remove(filter v % k == 0) = the regenerated ArrayShifter::Remove(array, filter) *)
+       let k = int_of_string a in
+       if k > 0 then
+         (match Gen_ShiftXSqrt.coq_ShiftRemoveIf (fun v -> Z.equal (Z.rem (zarith_of_z v) (Z.of_int k)) Z.zero) cellf !c (Gen_ArrSqrt.coq_GetCapacity idx !segs !n !c) with
+          | GenPrelude.Ok ((_, items'), c') -> flush_cells items' (Z.to_int (zarith_of_z c')); c := c' | o -> fail o)
      | 'D' -> let (_, _, ms) = split_op tok in let p = int_of_string a and m = int_of_string ms in
        if p <= ci () && m <= ci () - p then
          (match Gen_ShiftSqrt.coq_ShiftRemove cellf !c (Gen_ArrSqrt.coq_GetCapacity idx !segs !n !c) (z_of_int p) (z_of_int m) with
